@@ -178,6 +178,18 @@ package snowflake_client
 //@   at call Remove assert {each-peer-is-closed-before-it-is-dropped} calls(Close) == calls(Remove) + 1 && arg1 == e
 //@   ensures {each-dropped-peer-was-closed} calls(Close) == calls(Remove)
 //
+// ---- closing the connection (C15): whatever the stream, the packet connection or the session answer to their own
+// Close (a session that died earlier reports an error), Close ends the collection of peers - which closes every peer
+// held and stops the rendezvous loop - and releases all four parts, every time it is called.
+//@ func (conn *SnowflakeConn) Close() (err error)
+//@   props C15
+//@   flag nosafety
+//@   requires conn != nil
+//   (Dial builds every SnowflakeConn with its Peers)
+//@   assumes conn.snowflakes != nil
+//@   ensures {ends-the-peer-collection-whatever-the-other-parts-report} calls(End) == 1
+//@   ensures {releases-stream-packet-conn-and-session} calls(Close) == 3
+//
 // ---- a failed attempt to obtain a peer is reported, never fatal (C15) ----
 //@ immutable WebRTCPeer.eventsLogger
 //@ immutable WebRTCPeer.closed
@@ -215,7 +227,10 @@ package snowflake_client
 //@   props C15
 //@   flag concurrent lifetime=Melted
 //@   requires snowflakes != nil
-//@   loop 1 invariant true
+//   A failed attempt is retried: every attempt arms a retry timer of its own, and that timer is what the wait listens to.
+//@   loop 1 invariant {one-timer-per-attempt} calls(After) == calls(Collect)
+//@   at call Collect assert {retry-timer-armed-for-this-attempt} calls(After) == calls(Collect) + 1
+//@   at call select assert {waits-for-this-attempts-timer} calls(After) == calls(Collect)
 //
 // NAT probing walks the configured STUN servers: no configuration (empty list, server without URL) may panic.
 // Every server handed to it was built by parseIceServers with exactly one URL (proved below); NewSnowflakeClient only
